@@ -25,6 +25,7 @@ class Domain:
         self.items = items      # concrete list of Vals
         self.arm_seq = arm_seq  # ASeq term when the iteration variable (or its first component) is that sequence's element
         self.desc = desc
+        self.canon = None       # the iterated sequence itself as a SeqV (identity comprehensions)
 
 
 def domain_of(run, v):
@@ -35,9 +36,13 @@ def domain_of(run, v):
     if isinstance(v, SeqV):
         n = seq_len(v)
         if v.kind == 'A':
-            return Domain(n, lambda i: ArmV(T.aat(v.term, i)), arm_seq=v.term)
+            d = Domain(n, lambda i: ArmV(T.aat(v.term, i)), arm_seq=v.term)
+            d.canon = SeqV('A', v.term, True)
+            return d
         if v.kind == 'R':
-            return Domain(n, lambda i: Num(T.rat(v.term, i)))
+            d = Domain(n, lambda i: Num(T.rat(v.term, i)))
+            d.canon = SeqV('R', v.term, True)
+            return d
         if v.kind == 'I':
             return Domain(n, lambda i: Num(iat(v.term, i)))
         if v.kind == 'B':
@@ -88,7 +93,11 @@ def domain_of(run, v):
             if what == 'keys':
                 return Domain(n, lambda i: ArmV(T.aat(o.keys, i)), arm_seq=o.keys)
             if what == 'values':
-                return Domain(n, lambda i: _entry_val(run, ref, T.aat(run.deref(ref).keys, i)), desc='values')
+                d = Domain(n, lambda i: _entry_val(run, ref, T.aat(run.deref(ref).keys, i)), desc='values')
+                if o.is_scalar and o.vkinds[''] == 'real':
+                    from .specfns import mvals
+                    d.canon = SeqV('R', mvals(o.keys, o.cols['']), True)
+                return d
             if what == 'items':
                 return Domain(n, lambda i: TupleV([ArmV(T.aat(run.deref(ref).keys, i)),
                                                    _entry_val(run, ref, T.aat(run.deref(ref).keys, i))]),
@@ -100,6 +109,8 @@ def _entry_val(run, ref, key):
     m = run.deref(ref)
     if m.is_scalar:
         return wrap(m.vkinds[''], m.cols[''][key])
+    if set(m.cols) == {'#keys', '#vals'}:
+        return run.st.alloc(MapO(m.cols['#keys'][key], {'': m.cols['#vals'][key]}, {'': 'real'}))
     return EntryRef(ref.loc, key)
 
 
@@ -156,6 +167,8 @@ def summarise(run, dom, body, where='', collect=False, parallel=None):
     finally:
         del run.obligs[:]
         run.obligs.extend(saved_obligs)
+    all_ends = ends
+    ends = [e for e in ends if e[0] == 'ok'] or ends      # classification looks at iterations that complete
     heap_written = set()
     env_written = set()
     indexed_cols = {}       # (loc, col) -> True when every write is at the iteration's own key
@@ -168,13 +181,42 @@ def summarise(run, dom, body, where='', collect=False, parallel=None):
         for nm, v in env1.items():
             if nm in env0 and env0[nm] is not v:
                 env_written.add(nm)
+    # an empty list literal that the body appends to: give it the element kind the body uses, then start over
+    retyped = False
+    for loc in list(heap_written):
+        o0 = st0.heap[loc]
+        if isinstance(o0, ListO) and not o0.items:
+            for kind, payload, st1, pctx, env1 in ends:
+                o1 = st1.heap[loc]
+                if isinstance(o1, SeqO):
+                    st0.heap[loc] = SeqO(o1.skind, {'R': T.rempty, 'A': T.aempty}[o1.skind])
+                    retyped = True
+                    break
+                if isinstance(o1, SymListO):
+                    st0.heap[loc] = SymListO(z3.IntVal(0), z3.K(Int, PV.pv_none), o1.ekind)
+                    retyped = True
+                    break
+    if retyped:
+        return summarise(run, dom, body, where=where, collect=collect, parallel=parallel)
     # classify map columns / symbolic lists
     indexed = {}        # loc -> set(cols)  (maps), or loc -> 'list'
+    built = set()       # maps that start empty and receive exactly the iterated keys
     carried_locs = set()
     for loc in heap_written:
         o0 = st0.heap[loc]
         ok = False
-        if isinstance(o0, MapO) and keyterm is not None:
+        if isinstance(o0, MapO) and keyterm is not None and not o0.cols and z3.eq(o0.keys, T.aempty):
+            # a dict built by inserting the iterated keys one by one, in order
+            ok = all(isinstance(st1.heap[loc], MapO) and
+                     z3.eq(z3.simplify(st1.heap[loc].keys), z3.simplify(T.aappend(T.aempty, keyterm)))
+                     for _, _, st1, _, _ in ends)
+            cs = [tuple(sorted(st1.heap[loc].cols)) for _, _, st1, _, _ in ends]
+            if ok and len(set(cs)) == 1:
+                indexed[loc] = set(cs[0])
+                built.add(loc)
+            else:
+                ok = False
+        elif isinstance(o0, MapO) and keyterm is not None:
             ok = True
             cols = set()
             for kind, payload, st1, pctx, env1 in ends:
@@ -234,6 +276,8 @@ def summarise(run, dom, body, where='', collect=False, parallel=None):
             sti.heap[loc] = SymListO(o0.length, z3.Lambda([j], z3.If(j == ik, o0.elems[j], mixed[j])), o0.ekind)
             continue
         nm = o0
+        if loc in built:
+            continue
         for c in cols:
             mixed = fresh('other_iters', o0.cols[c].sort())
             arr = z3.Lambda([a_], z3.If(z3.Or(a_ == keyterm, z3.Not(T.amem(dom.arm_seq, a_))), o0.cols[c][a_], mixed[a_]))
@@ -370,6 +414,15 @@ def summarise(run, dom, body, where='', collect=False, parallel=None):
             post.written.add((loc, '*'))
             continue
         nm = o0
+        if loc in built:
+            o1 = normal[0][2].heap[loc]
+            nm = MapO(dom.arm_seq, {}, o1.vkinds, o1.record_cls)
+            for c in cols:
+                v = merged(lambda st1, env1: st1.heap[loc].cols[c][keyterm])
+                nm.cols[c] = z3.Lambda([a_], gen(v, T.apos(dom.arm_seq, a_)))
+            post.heap[loc] = nm
+            post.written.add((loc, '*'))
+            continue
         for c in cols:
             v = merged(lambda st1, env1: st1.heap[loc].cols[c][keyterm])
             arr = z3.Lambda([a_], z3.If(T.amem(dom.arm_seq, a_), gen(v, T.apos(dom.arm_seq, a_)), o0.cols[c][a_]))
@@ -402,6 +455,15 @@ def summarise(run, dom, body, where='', collect=False, parallel=None):
             get = lambda st1, env1, nm=desc[1]: env1[nm].term
         v = merged(get)
         post.assume(z3.ForAll([i_], z3.Implies(rng, itf(i_ + 1) == gen(v)), patterns=[itf(i_ + 1)]))
+        ccf = _cond_closed_form(v, itf, ik, body_consts)
+        if ccf is not None:
+            # conditional update: it(i+1) = g(it(i), args(i)) if c(i) else it(i)
+            cnd, g, others = ccf
+            jj = z3.Int('j!it')
+            arrs = [z3.Lambda([jj], z3.substitute(o, (ik, jj))) for o in [cnd] + others]
+            it_g = F('iterx_if_' + g.name(), init.sort(), Int, *[a.sort() for a in arrs], init.sort())
+            post.assume(z3.ForAll([i_], z3.Implies(i_ >= 0, itf(i_) == it_g(init, i_, *arrs)), patterns=[itf(i_)]))
+            run.note('rule:iterated-conditional-function ' + g.name())
         cf = _closed_form(v, itf, ik, body_consts)
         if cf is not None:
             # iteration of a function g with per-index arguments: it(i) = iterx_g(init, i, [lambda j. arg_k(j)]...)
@@ -533,6 +595,23 @@ def _closed_form(v, itf, ik, body_consts):
     return v.decl(), others
 
 
+def _cond_closed_form(v, itf, ik, body_consts):
+    if not (z3.is_app(v) and v.decl().kind() == z3.Z3_OP_ITE):
+        return None
+    c, a, b = v.arg(0), v.arg(1), v.arg(2)
+    if z3.eq(a, itf(ik)):
+        a, b, c = b, a, z3.Not(c)
+    if not z3.eq(b, itf(ik)):
+        return None
+    cf = _closed_form(a, itf, ik, body_consts)
+    if cf is None:
+        return None
+    banned = set(x.get_id() for x in body_consts if not z3.eq(x, ik))
+    if _mentions(c, banned, itf):
+        return None
+    return z3.simplify(c), cf[0], cf[1]
+
+
 def _mentions(t, banned_ids, itf):
     todo = [t]
     seen = set()
@@ -594,6 +673,9 @@ def eval_comprehension(run, n, kind):
         return run.st.alloc(ListO(out))
     if g.ifs:
         return _filter_comp(run, n, g, dom)
+    if isinstance(n.elt, ast.Name) and isinstance(g.target, ast.Name) and n.elt.id == g.target.id \
+            and dom.canon is not None:
+        return dom.canon       # [x for x in xs]: the sequence itself
 
     def body(elem):
         run.assign(g.target, elem)
